@@ -90,6 +90,7 @@ type regState struct {
 	connected bool
 	regRef    map[string]string // what the registry's copy must be (etcd as of the last delivered event / snapshot)
 	offPut    bool              // some put happened while disconnected (registration order not visible to a snapshot)
+	multiAdd  bool              // some reload had to deliver two or more adds carrying the same value (their order decides which key an exclusive container keeps)
 	late      bool
 }
 
@@ -120,6 +121,15 @@ func (s *regState) apply(o Op) (cat string, executes bool) {
 		return "disconnect", false
 	case "reload":
 		cat = reloadCategory(s.regRef, s.r.E)
+		perVal := map[string]int{}
+		for k, v := range s.r.E {
+			if o, ok := s.regRef[k]; !ok || o != v {
+				perVal[v]++
+				if perVal[v] > 1 {
+					s.multiAdd = true
+				}
+			}
+		}
 		s.connected = true
 		s.regRef = s.r.snapshot()
 		return cat, true
@@ -278,7 +288,7 @@ func runRegistry(path []Op, log io.Writer) (string, *failure) {
 					m[v] = true
 				}
 				if obj, msg := wl.checkView("late plain listener (watch down)", setOf(m), setOf(m), nl, true); obj != "" && (last || log != nil) {
-					return "", &failure{"late-monitor:" + classOf(wl, obj, cat, true, ""), msg}
+					return "", &failure{"late-monitor:" + classOf(wl, obj, cat, true, false), msg}
 				}
 			}
 			continue
@@ -311,27 +321,35 @@ func runRegistry(path []Op, log io.Writer) (string, *failure) {
 			fmt.Fprintln(log)
 		}
 		if last || log != nil {
-			suffix := ""
-			if st.offPut {
-				suffix = "@after-offline-registrations"
-			}
 			switch {
 			case f != nil:
 			case objP != "":
-				f = &failure{classOf(wp, objP, cat, true, ""), msgP}
+				f = &failure{classOf(wp, objP, cat, true, false), msgP}
 			case objL != "":
-				f = &failure{"late-monitor:" + classOf(wl, objL, cat, true, ""), msgL}
+				f = &failure{"late-monitor:" + classOf(wl, objL, cat, true, false), msgL}
 			case objX != "":
-				f = &failure{classOf(wx, objX, cat, false, suffix), msgX}
+				f = &failure{exclusiveClass(st, classOf(wx, objX, cat, false, st.offPut)), msgX}
 			}
 			if f != nil {
 				return "", f
 			}
 		}
 	}
-	key := fmt.Sprintf("%s|c%v|R{%s}|off%v|shown%v%v|%s|%s|%s", st.r.dump(), st.connected, mapString(st.regRef), st.offPut, wp.shown, wx.shown, cl.Dump(), wp.c.Dump(), wx.c.Dump())
+	key := fmt.Sprintf("%s|c%v|R{%s}|off%v|shown%v%v|%s|%s|%s", st.r.dump(), st.connected, mapString(st.regRef), fmt.Sprint(st.offPut, st.multiAdd), wp.shown, wx.shown, cl.Dump(), wp.c.Dump(), wx.c.Dump())
 	if wl != nil {
 		key += fmt.Sprintf("|L%v%s", wl.shown, wl.c.Dump())
 	}
 	return key, nil
+}
+
+// exclusiveClass splits the failures only the exclusive listener shows after offline
+// registrations by what made the snapshot insufficient.
+func exclusiveClass(st *regState, class string) string {
+	if class != "exclusive-only:registration-order-lost-by-reload" {
+		return class
+	}
+	if st.multiAdd {
+		return "exclusive-only:reload-add-order-decides-latest-key"
+	}
+	return "exclusive-only:offline-reregistration-invisible-to-reload"
 }
